@@ -203,6 +203,7 @@ impl<R: Round, const B: Word> Inverse for &FBig<R, B> {
 
 // Align two float by exponent such that they are both turned into integers
 fn align_as_int<R: Round, const B: Word>(lhs: FBig<R, B>, rhs: FBig<R, B>) -> (IBig, IBig) {
+    assert_finite_operands(&lhs.repr, &rhs.repr);
     let ediff = lhs.repr.exponent - rhs.repr.exponent;
     let (mut num, mut den) = (lhs.repr.significand, rhs.repr.significand);
     if ediff >= 0 {
